@@ -21,6 +21,29 @@ for d in sorted((V / "seeded").iterdir()):
         ch.append(f"{c}: {'caught' if v['caught'] else 'MISSED'}" + (f" ({ob})" if ob else ""))
     t = j.get("tests", {})
     rows.append(f"| `{j['id']}` | {j['breaks']} | {j.get('needs_to_manifest','')} | {'99/99' if t.get('all_pass') else str(t.get('passed'))} | {'; '.join(ch)} |")
-print("| seeded change | breaks | needs, in order to manifest | tests with change | checks |")
-print("|---|---|---|---|---|")
-print("\n".join(rows))
+out = ["| seeded change | breaks | needs, in order to manifest | tests with change | checks |", "|---|---|---|---|---|"] + rows
+# harmless (behaviour-preserving) changes: every check must stay quiet
+hrows = []
+hd = V / "seeded" / "harmless"
+if hd.exists():
+    for d in sorted(hd.iterdir(), key=lambda x: (len(x.name), x.name)):
+        m = d / "meta.json"
+        if not m.exists():
+            continue
+        j = json.loads(m.read_text())
+        al = j.get("alarms", [])
+        hrows.append(f"| `{j.get('id', d.name)}` | {j.get('what', '')} | {len(j.get('checks', {}))} | {'none' if not al else ', '.join(al)} |")
+hout = ["| behaviour-preserving change | what | checks run | alarms |", "|---|---|---|---|"] + hrows
+import sys
+if "--inject" in sys.argv:
+    p = V / "DESIGN.md"
+    t = p.read_text()
+    for tag, body in (("SEEDTABLE", out), ("HARMLESSTABLE", hout)):
+        b, e = f"<!-- {tag}:BEGIN -->", f"<!-- {tag}:END -->"
+        if b in t and e in t:
+            t = t[:t.index(b) + len(b)] + "\n" + "\n".join(body) + "\n" + t[t.index(e):]
+    p.write_text(t)
+    n_caught = sum(1 for r in rows if "caught" in r)
+    print(f"{len(rows)} seeded changes ({n_caught} caught by at least one check), {len(hrows)} harmless changes")
+else:
+    print("\n".join(out)); print(); print("\n".join(hout))
